@@ -576,6 +576,8 @@ func genAsmCase(rng *rand.Rand) asmGen {
 			file = nil
 		case r < 16:
 			s.table = nil
+		case r < 17 && rng.Intn(2) == 0: // the seed file cannot be opened
+			s.src = "99"
 		case r < 17: // the seed index lies about a size
 			if len(s.table) > 0 {
 				i := rng.Intn(len(s.table))
@@ -600,7 +602,7 @@ func genAsmCase(rng *rand.Rand) asmGen {
 				s.table = tableOf(c.alg, op)
 			}
 		}
-		if s.src != "T" {
+		if s.src != "T" && s.src != "99" {
 			c.files = append(c.files, file)
 		}
 		c.seeds = append(c.seeds, s)
@@ -666,6 +668,13 @@ func (g asmGen) expectSuccess() bool {
 			return false // a seed that changes while it is read: covered by the safety half only
 		}
 		k, _ := strconv.Atoi(s.src)
+		if k >= len(c.files) { // no such file: skipping works, regenerating its index cannot
+			if c.act == "regen" {
+				return false
+			}
+			consistent = false
+			continue
+		}
 		f := c.files[k]
 		for _, t := range s.table {
 			if t.Start+t.Size > uint64(len(f)) || sumAlg(c.alg, f[t.Start:t.Start+t.Size]) != t.ID {
